@@ -431,13 +431,6 @@ def b_vars(I, a, k):
     raise Unsupported("vars()")
 
 
-def i_total_seconds(I, a, k):
-    # durations are modelled as integers (assumed_stdlib: timedelta); total_seconds() is that number as a real
-    from .values import SFloat
-
-    return SFloat(z3.ToReal(a[0].t) / 1000)
-
-
 # ============================================================================ methods of builtin types
 def method(I, obj: V, name: str) -> V:
     if isinstance(obj, (SList,)):
@@ -825,7 +818,9 @@ def i_total_seconds(I, a, k):
 
 
 def i_isoformat(I, a, k):
-    # timestamps are integers; their ISO text is order-isomorphic (assumption: datetime() comparisons order ISO text)
+    # timestamps are integers; their ISO text is order-isomorphic (assumption: datetime() comparisons order ISO text).
+    # A datetime object and its ISO text are always truthy, so the integer that encodes them is not 0.
+    I.st.assume(I.ops.as_int(a[0]) != 0)
     return a[0]
 
 
